@@ -9,36 +9,45 @@ EXTENDS FatTree, Json
 CONSTANTS Total, MaxLen, D, Neg,     \* Neg: include calls the plain tree cannot do
           WithFill,                 \* include Fill (write until the volume refuses) - for random walks
           Frag                      \* TRUE: the fragmentation family instead of the full alphabet (see FragNext)
-VARIABLES hist, tag
-gvars == <<vars, hist, tag>>
+VARIABLES hist, tag,
+          held        \* the file a write handle is being kept open on ("none": no handle is kept)
+gvars == <<vars, hist, tag, held>>
+\* Handles that stay open ACROSS other calls: Hold(p) opens a read-write handle on p and keeps it; the next
+\* WriteAt / Append to p goes through that handle (log field held = TRUE) and closes it.  For the plain
+\* tree this changes nothing - a write is a write; for the implementation the handle carries state taken
+\* when it was opened.  While a handle is kept, the calls that would pull the file from under it are not
+\* generated (Remove, Rename, Trunc, directory rename, Fill).
+NoHold == held = "none"
+Via(p) == held = p
 Offs(p) == {0, 1, 3, 4, 5} \cup {Len(tree[p].data), Len(tree[p].data) + 1}
 Lens == {1, 3, 4, 5}
 Log(r) == hist' = Append(hist, r)
 Go(can, t2) == /\ tree' = (IF can /\ Used(t2) <= total THEN t2 ELSE tree)
                /\ out' = "ok" /\ UNCHANGED total
-Init == tree = [p \in Paths |-> None] /\ total = Total /\ out = "ok" /\ tag = 1 /\ hist = <<>>
+Init == tree = [p \in Paths |-> None] /\ total = Total /\ out = "ok" /\ tag = 1 /\ hist = <<>> /\ held = "none"
 Next ==
   /\ Len(hist) < D
-  /\ \/ \E p \in Dirs : (Neg \/ ~Exists(p)) /\ Go(CanMkdir(p), MkdirT(p)) /\ Log([a |-> "Mkdir", p |-> p]) /\ UNCHANGED tag
-     \/ \E p \in Files : (Neg \/ CanCreate(p)) /\ ~Exists(p) /\ Go(CanCreate(p), CreateT(p)) /\ Log([a |-> "Create", p |-> p]) /\ UNCHANGED tag
+  /\ \/ \E p \in Dirs : (Neg \/ ~Exists(p)) /\ Go(CanMkdir(p), MkdirT(p)) /\ Log([a |-> "Mkdir", p |-> p]) /\ UNCHANGED <<tag, held>>
+     \/ \E p \in Files : (Neg \/ CanCreate(p)) /\ ~Exists(p) /\ Go(CanCreate(p), CreateT(p)) /\ Log([a |-> "Create", p |-> p]) /\ UNCHANGED <<tag, held>>
+     \/ \E p \in Files : NoHold /\ IsFile(p) /\ held' = p /\ Go(TRUE, tree) /\ Log([a |-> "Hold", p |-> p]) /\ UNCHANGED tag
      \/ \E p \in Files : CanWrite(p) /\ \E off \in Offs(p), len \in Lens :
            /\ off + len <= MaxLen
-           /\ Go(TRUE, WriteT(p, off, len, tag)) /\ Log([a |-> "WriteAt", p |-> p, off |-> off, len |-> len, tag |-> tag])
-           /\ tag' = tag + 1
+           /\ Go(TRUE, WriteT(p, off, len, tag)) /\ Log([a |-> "WriteAt", p |-> p, off |-> off, len |-> len, tag |-> tag, held |-> Via(p)])
+           /\ tag' = tag + 1 /\ held' = (IF Via(p) THEN "none" ELSE held)
      \/ \E p \in Files : CanWrite(p) /\ \E len \in {1, 4, 5} :
            /\ Len(tree[p].data) + len <= MaxLen
-           /\ Go(TRUE, AppendT(p, len, tag)) /\ Log([a |-> "Append", p |-> p, len |-> len, tag |-> tag])
-           /\ tag' = tag + 1
-     \/ \E p \in Files : CanWrite(p) /\ Len(tree[p].data) > 0 /\ Go(TRUE, TruncT(p)) /\ Log([a |-> "Trunc", p |-> p]) /\ UNCHANGED tag
-     \/ \E p, q \in Files : p # q /\ Parent[p] = Parent[q] /\ (CanRename(p, q) \/ (Neg /\ p = "A" /\ ~Exists(p)))
-           /\ Go(CanRename(p, q), RenameT(p, q)) /\ Log([a |-> "Rename", p |-> p, q |-> q]) /\ UNCHANGED tag
-     \/ \E d, e \in Dirs : d # e /\ (CanRenameDir(d, e) \/ (Neg /\ Exists(d)))
-           /\ Go(CanRenameDir(d, e), RenameDirT(d, e)) /\ Log([a |-> "Rename", p |-> d, q |-> e]) /\ UNCHANGED tag
-     \/ \E p \in Paths : (CanRemove(p) \/ (Neg /\ (p = "D" \/ p = "A")))
-           /\ Go(CanRemove(p), RemoveT(p)) /\ Log([a |-> "Remove", p |-> p]) /\ UNCHANGED tag
-     \/ /\ WithFill /\ \E p \in Files : IsFile(p) /\ Len(tree[p].data) <= MaxLen
-           /\ Go(TRUE, FillT(p, FillCap(p), tag)) /\ Log([a |-> "Fill", p |-> p, tag |-> tag]) /\ tag' = tag + 1
-     \/ /\ Neg /\ ~Exists("b") /\ Go(FALSE, tree) /\ Log([a |-> "WriteAt", p |-> "b", off |-> 0, len |-> 1, tag |-> tag]) /\ tag' = tag + 1
+           /\ Go(TRUE, AppendT(p, len, tag)) /\ Log([a |-> "Append", p |-> p, len |-> len, tag |-> tag, held |-> Via(p)])
+           /\ tag' = tag + 1 /\ held' = (IF Via(p) THEN "none" ELSE held)
+     \/ \E p \in Files : NoHold /\ CanWrite(p) /\ Len(tree[p].data) > 0 /\ Go(TRUE, TruncT(p)) /\ Log([a |-> "Trunc", p |-> p]) /\ UNCHANGED <<tag, held>>
+     \/ \E p, q \in Files : NoHold /\ p # q /\ Parent[p] = Parent[q] /\ (CanRename(p, q) \/ (Neg /\ p = "A" /\ ~Exists(p)))
+           /\ Go(CanRename(p, q), RenameT(p, q)) /\ Log([a |-> "Rename", p |-> p, q |-> q]) /\ UNCHANGED <<tag, held>>
+     \/ \E d, e \in Dirs : NoHold /\ d # e /\ (CanRenameDir(d, e) \/ (Neg /\ Exists(d)))
+           /\ Go(CanRenameDir(d, e), RenameDirT(d, e)) /\ Log([a |-> "Rename", p |-> d, q |-> e]) /\ UNCHANGED <<tag, held>>
+     \/ \E p \in Paths : NoHold /\ (CanRemove(p) \/ (Neg /\ (p = "D" \/ p = "A")))
+           /\ Go(CanRemove(p), RemoveT(p)) /\ Log([a |-> "Remove", p |-> p]) /\ UNCHANGED <<tag, held>>
+     \/ /\ WithFill /\ NoHold /\ \E p \in Files : IsFile(p) /\ Len(tree[p].data) <= MaxLen
+           /\ Go(TRUE, FillT(p, FillCap(p), tag)) /\ Log([a |-> "Fill", p |-> p, tag |-> tag]) /\ tag' = tag + 1 /\ UNCHANGED held
+     \/ /\ Neg /\ ~Exists("b") /\ Go(FALSE, tree) /\ Log([a |-> "WriteAt", p |-> "b", off |-> 0, len |-> 1, tag |-> tag, held |-> FALSE]) /\ tag' = tag + 1 /\ UNCHANGED held
 \* The fragmentation family (bounded-exhaustive): every history of length D of Create / Append (one
 \* cluster and a bit, or two whole clusters: chains grow across cluster boundaries) / Remove / Trunc over two
 \* files - so that chains interleave, are released and re-used in every order - followed by
@@ -57,8 +66,8 @@ FragNext ==
         \/ \E p \in FragFiles : IsFile(p) /\ Len(tree[p].data) > 0 /\ Go(TRUE, RemoveT(p)) /\ Log([a |-> "Remove", p |-> p]) /\ UNCHANGED tag
   \/ /\ Len(hist) = FP + D /\ Go(CanCreate("L1"), CreateT("L1")) /\ Log([a |-> "Create", p |-> "L1"]) /\ UNCHANGED tag
   \/ /\ Len(hist) = FP + D + 1 /\ Go(IsFile("L1"), IF IsFile("L1") THEN FillT("L1", FillCap("L1"), tag) ELSE tree) /\ Log([a |-> "Fill", p |-> "L1", tag |-> tag]) /\ tag' = tag + 1
-FragInit == tree = FragTree /\ total = Total /\ out = "ok" /\ tag = 3 /\ hist = FragPrefix
-Spec == (IF Frag THEN FragInit ELSE Init) /\ [][IF Frag THEN FragNext ELSE Next]_gvars
+FragInit == tree = FragTree /\ total = Total /\ out = "ok" /\ tag = 3 /\ hist = FragPrefix /\ held = "none"
+Spec == (IF Frag THEN FragInit ELSE Init) /\ [][IF Frag THEN (FragNext /\ UNCHANGED held) ELSE Next]_gvars
 Emit == (Len(hist) = (IF Frag THEN FP + D + 2 ELSE D)) => PrintT(<<"BEH", ToJson(hist)>>)
-View == <<tree, hist>>
+View == <<tree, hist, held>>
 ===============================================================================
